@@ -748,7 +748,7 @@ def main():
   # the first DuplicateTable of a process spends seconds filling astroid's caches: do it once here,
   # before the workers are forked, instead of once in every worker (bundle time limit under load)
   eng.apply(_seed_engine("basic"), [["DuplicateTable", "A", "Dup", False]])
-  explore.explore(rep, "checks.C09", "C09Monitor", n_quick=176, budget_quick_s=28)
+  explore.explore(rep, "checks.C09", "C09Monitor", n_quick=176, budget_quick_s=25)
   removal_sweep_collect(rep, sweep)
   run_witnesses(rep)
   return rep.finish()
